@@ -137,6 +137,27 @@ func genC04(rng *rand.Rand, tier string) *sim.Plan {
 			}
 		}
 		p.Phases = append(p.Phases, ph)
+		if chance(rng, 0.15) {
+			// sessions that end by expiry while a QoS 2 identifier is still awaiting PUBREL: the next session of the
+			// client id (Clean Start 0, Session Present 0) starts from nothing, the identifier carries a new message
+			var a, b sim.Phase
+			for i := 1; i <= np; i++ {
+				if !chance(rng, 0.7) {
+					continue
+				}
+				pid := uint16(3000 + r)
+				op := sim.Op{K: "publish", C: i, Topic: fmt.Sprintf("t/%d", i), QoS: 2, PID: pid, HoldRel: true}
+				msg++
+				op.Payload = fmt.Sprintf("x%d", msg)
+				a.Ops = append(a.Ops, op, sim.Op{K: "cut", C: i})
+				msg++
+				b.Ops = append(b.Ops, conn(i, false), sim.Op{K: "publish", C: i, Topic: fmt.Sprintf("t/%d", i), QoS: 2, PID: pid, Payload: fmt.Sprintf("x%d", msg)})
+			}
+			if len(a.Ops) > 0 {
+				a.Advance = sim.Sec(3 * 3600) // beyond the configured (2 h) and every requested expiry
+				p.Phases = append(p.Phases, a, b)
+			}
+		}
 	}
 	maybeRedis(rng, p, 0.2)
 	return p
@@ -180,6 +201,27 @@ func oracleC04(p *sim.Plan, out *sim.Outcome) []sim.Violation {
 		}
 		return 1 << 60
 	}
+	// premise of the delivery clauses: the observing subscriber (client 0) was subscribed before the message was
+	// sent and stayed connected (the minimiser may not remove it)
+	subStep := 1 << 60
+	for _, o := range h.Ops {
+		if o.Op.K == "subscribe" && o.Op.C == 0 && o.Ack != nil && len(o.Ack.Codes) > 0 && o.Ack.Codes[0] < 0x80 && o.Resp < subStep {
+			subStep = o.Resp
+		}
+	}
+	for _, r := range h.Recs {
+		if (r.Kind == "cclose" || r.Kind == "bclose") && r.C == 0 && !finalPhase(h, r.Step) {
+			subStep = 1 << 60
+		}
+	}
+	firstTx := map[string]int{}
+	for _, r := range h.Recs {
+		if r.Kind == "tx" && r.Pkt != nil && r.Pkt.Type == mqttc.PUBLISH {
+			if _, ok := firstTx[string(r.Pkt.Payload)]; !ok {
+				firstTx[string(r.Pkt.Payload)] = r.Step
+			}
+		}
+	}
 	// delivered counts at the subscriber
 	delivered := map[string]int{}
 	for _, r := range h.Recs {
@@ -200,6 +242,8 @@ func oracleC04(p *sim.Plan, out *sim.Outcome) []sim.Violation {
 		sent := map[key]bool{}
 		def := map[key]bool{}
 		lastPayload := map[[2]int]string{} // (conn,pid) -> payload of the last QoS2 PUBLISH sent
+		openFlow := map[[2]int]string{}    // (epoch,pid) -> payload of the QoS 2 flow the client has not released yet
+		ambiguous := map[string]bool{}
 		payloadQoS := map[string]byte{}
 		// ack accounting
 		type ak struct {
@@ -244,8 +288,17 @@ func oracleC04(p *sim.Plan, out *sim.Outcome) []sim.Violation {
 				case r.Pkt.Type == mqttc.PUBLISH && r.Pkt.QoS == 2:
 					want = mqttc.PUBREC
 					lastPayload[[2]int{r.Conn, int(r.Pkt.PID)}] = string(r.Pkt.Payload)
+					// a different message under an identifier whose flow the client has not released in this session
+					// is the client's protocol error (the broker rightly takes it for a retransmission): not judged
+					ok := [2]int{connEpoch[r.Conn], int(r.Pkt.PID)}
+					if prev, open := openFlow[ok]; open && prev != string(r.Pkt.Payload) {
+						ambiguous[string(r.Pkt.Payload)] = true
+					} else {
+						openFlow[ok] = string(r.Pkt.Payload)
+					}
 				case r.Pkt.Type == mqttc.PUBREL:
 					want = mqttc.PUBCOMP
+					delete(openFlow, [2]int{connEpoch[r.Conn], int(r.Pkt.PID)})
 				}
 				if r.Pkt.Type == mqttc.PUBLISH {
 					sent[key{string(r.Pkt.Payload), connEpoch[r.Conn]}] = true
@@ -305,6 +358,9 @@ func oracleC04(p *sim.Plan, out *sim.Outcome) []sim.Violation {
 		for _, pl := range pls {
 			n := delivered[pl]
 			q := payloadQoS[pl]
+			if firstTx[pl] <= subStep || ambiguous[pl] {
+				continue // the subscriber was not (yet) there to observe / the client broke the protocol
+			}
 			if strings.HasPrefix(pl, "rej") {
 				if n > 0 {
 					vs = append(vs, viol("C04", "once", "refused-forwarded", "message %q, refused by the OnMsgArrived hook, was forwarded %d times", pl, n))
@@ -330,4 +386,14 @@ func oracleC04(p *sim.Plan, out *sim.Outcome) []sim.Violation {
 		}
 	}
 	return vs
+}
+
+// finalPhase reports whether step lies in the end-of-run sequence (after the "final" record).
+func finalPhase(h *sim.History, step int) bool {
+	for _, r := range h.Recs {
+		if r.Kind == "phase" && r.Note == "final" {
+			return step >= r.Step
+		}
+	}
+	return false
 }
